@@ -416,7 +416,8 @@ variable {σ V : Type} (I : Interp σ V) (o : Opts) (t : Int) (P : σ → Prop)
 
 /-- `P` is preserved by everything the solver can do to the user state. -/
 structure Preserved : Prop where
-  copyOffset : ∀ u off, P u → P (I.copyOffset u t off)
+  /-- only needed when the call really copies (`offset ≠ 0`) -/
+  copyOffset : o.offset ≠ 0 → ∀ u, P u → P (I.copyOffset u t o.offset)
   before : ∀ u, P u → P (I.before o u t).1
   eval : ∀ u k, P u → P (I.eval o u t k).1
   after : ∀ u k, P u → P (I.after o u t k).1
@@ -487,7 +488,7 @@ theorem solveT_inv (h : Preserved I o t P) (n : Nat) (w : World σ) (hw : P w.us
         · exact hw
         · have hs : P (seed I o t w.user) := by
             unfold seed; split
-            · exact h.copyOffset _ _ hw
+            · rename_i hoff; exact h.copyOffset hoff _ hw
             · exact hw
           unfold solveCore
           split
